@@ -350,20 +350,23 @@ def decls : Nat → Text → Except Err (List Tmpl × Text)
     | .ok (vs, b2) => .ok (v :: vs, b2)
 end
 
-/-- `DDSParser(text).parse()` -/
-def parseDds (text : Text) : Except Err Dataset :=
+/-- `DDSParser(text).parse()` with an explicit fuel for the declaration loop -/
+def parseDdsWith (fuel : Nat) (text : Text) : Except Err Dataset :=
   match consumeLit "dataset".toList text with
   | .error e => .error e
   | .ok b1 =>
   match consumeLit ['{'] b1 with
   | .error e => .error e
   | .ok b2 =>
-  match decls text.length b2 with
+  match decls fuel b2 with
   | .error e => .error e
   | .ok (kids, b3) =>
   match closing b3 with
   | .error e => .error e
   | .ok (nm, _) => .ok ⟨nm, insertAll kids⟩
+
+/-- `DDSParser(text).parse()`: fuel = text length (adequate for every input: `Proofs/DdsFuel.lean`) -/
+def parseDds (text : Text) : Except Err Dataset := parseDdsWith text.length text
 
 /-! ### the normal form a printed tree parses to -/
 
